@@ -37,6 +37,11 @@ def arm_map(F, m, enum_path):
 
 
 def diverges_err(body, variant_suffix=None):
+    # the arm's value is itself `Err(..)` (a table inside a fallible helper whose caller propagates it)
+    h0 = table.head(body)
+    if h0[0] == "variant" and h0[1].endswith("Result::Err"):
+        if variant_suffix is None or any((y.get("path") or "").endswith(variant_suffix) for y in walk(body)):
+            return True
     for x in walk(body):
         if x.get("k") == "Ret" and x.get("e") is not None:
             h = table.head(x["e"])
@@ -64,7 +69,7 @@ def t_map_comparison(F, R):
     n = 0
     for f, m in table.find_matches(F, scrut_ty=CMP):
         am = arm_map(F, m, CMP)
-        heads = {v: table.head(a[0]["body"]) for v, a in am.items()}
+        heads = {v: table.head(a[0]["body"], unwrap_ok=True) for v, a in am.items()}
         is_mlp = any(h[0] == "variant" and "ComparisonOp" in h[1] for h in heads.values())
         is_glp = any(h[0] == "mcall" and h[2]["name"] in ("leq", "geq", "eq") for h in heads.values())
         if not (is_mlp or is_glp):
@@ -85,7 +90,8 @@ def t_map_comparison(F, R):
             else:
                 arm = am.get(v)
                 R.ob("T-MAP", key, arm is not None and diverges_err(arm[0]["body"], "UnavailableComparison"), F.loc(f, m), "strict comparison %s must be rejected with UnavailableComparison" % v)
-    R.ob("T-MAP", "comparison-sites", n == 3, "", "expected 3 Comparison mapping sites (2 microlp, 1 good_lp), found %d" % n)
+    # a mapping written in another form than a `match` on the comparison is not seen by this rule: undecided, not wrong
+    R.ob("T-MAP", "comparison-sites", n == 3, "", "expected 3 Comparison mapping sites (2 microlp, 1 good_lp), found %d" % n, undecided=True)
 
 
 def t_map_direction(F, R):
@@ -107,7 +113,7 @@ def t_map_direction(F, R):
                 arm = am.get(v)
                 ok = got in ("Minimize", "Minimisation", "Maximize", "Maximisation") or (arm is not None and diverges_err(arm[0]["body"]))
                 R.ob("T-MAP", "%s:OptimizationType::Satisfy" % f["path"], ok, F.loc(f, m), "Satisfy -> %s (any direction or an explicit error)" % got)
-    R.ob("T-MAP", "direction-sites", n == 3, "", "expected 3 optimisation-direction mapping sites, found %d" % n)
+    R.ob("T-MAP", "direction-sites", n == 3, "", "expected 3 optimisation-direction mapping sites, found %d" % n, undecided=True)
 
 
 def _binder_ids(alt):
@@ -191,15 +197,15 @@ def t_map_columns(F, R):
                 h = heads.get(v)
                 got = h[1].rsplit("::", 1)[-1] if h and h[0] == "variant" else None
                 R.ob("T-MAP", "%s:readback:%s" % (f["path"], v), got == want[v], F.loc(f, m), "value of a %s variable is reported as MILPValue::%s, expected %s" % (v, got, want[v]))
-    R.ob("T-MAP", "column-sites", n_cols == 3, "", "expected 3 VariableType->column sites (2 microlp, 1 good_lp), found %d" % n_cols)
-    R.ob("T-MAP", "readback-sites", n_vals == 1, "", "expected 1 VariableType->MILPValue site, found %d" % n_vals)
+    R.ob("T-MAP", "column-sites", n_cols == 3, "", "expected 3 VariableType->column sites (2 microlp, 1 good_lp), found %d" % n_cols, undecided=True)
+    R.ob("T-MAP", "readback-sites", n_vals == 1, "", "expected 1 VariableType->MILPValue site, found %d" % n_vals, undecided=True)
 
 
 def h_columns(F, R):
     for p in SOLVER_FNS:
         f = F.fn(p)
         if f is None:
-            R.ob("H-COLUMNS", p + ":anchor", False, "", "solver entry not found")
+            R.ob("H-COLUMNS", p + ":anchor", False, "", "solver entry not found", undecided=True)
             continue
         R.fn(p)
         # only adapters applied to a sequence that is indexed like the columns (variables, domains, coefficients, values):
@@ -224,10 +230,12 @@ def h_columns(F, R):
                 if len(pushes) == 1:
                     ok = True
                     detail = "loop over %s pushes %s once per variable" % (sexp(n["iter"]), sexp(strip(pushes[0]["e"])["recv"]))
-        R.ob("H-COLUMNS", p + ":one-column-per-variable", ok, F.loc(f), detail)
+        # columns created by an iterator chain instead of a `for` loop are not seen by this clause (undecided); the
+        # adapters of such a chain are still checked by the no-reordering clause above
+        R.ob("H-COLUMNS", p + ":one-column-per-variable", ok, F.loc(f), detail, undecided=True)
         # the assignment is a map over the columns zipped with the variables, no filter (checked above)
         asg = [n for n in walk(f["body"]) if n.get("k") == "Struct" and norm(n.get("path") or "").endswith("common::Assignment")]
-        R.ob("H-COLUMNS", p + ":assignment-per-variable", len(asg) == 1, F.loc(f), "%d Assignment constructions (one value per variable expected)" % len(asg))
+        R.ob("H-COLUMNS", p + ":assignment-per-variable", len(asg) == 1, F.loc(f), "%d Assignment constructions (one value per variable expected)" % len(asg), undecided=(len(asg) == 0))
 
 
 def d_activity_offset(F, R):
@@ -256,7 +264,7 @@ def d_activity_offset(F, R):
                         txt += " <- " + sexp(d)
                 ok = "objective_offset()" in txt or "calc_objective(" in txt
                 R.ob("D-OFFSET", p, ok, F.loc(f, n), "reported objective `%s` must include the model's constant offset" % txt[:200])
-    R.ob("D-ACTIVITY", "sites", n_act == 3, "", "expected 3 activity computations, found %d" % n_act)
+    R.ob("D-ACTIVITY", "sites", n_act == 3, "", "expected 3 activity computations, found %d" % n_act, undecided=True)
     # calc_objective adds the offset exactly once
     f = F.fn("transformers::linear_model::LinearModel::calc_objective")
     if f is not None:
@@ -289,23 +297,25 @@ def tableau_readback(F, R):
     """S-SPLIT reader side: x = value($p x) - value($m x); only $sl_/$su_/$a_ columns are dropped"""
     f = F.fn("solvers::simplex::optimal_tableau::OptimalTableau::as_lp_solution")
     if f is None:
-        R.ob("S-SPLIT", "reader:anchor", False, "", "as_lp_solution not found")
+        R.ob("S-SPLIT", "reader:anchor", False, "", "as_lp_solution not found", undecided=True)
         return
     R.fn(f["path"])
     dropped = set()
     stripped = set()
     for n in walk(f["body"]):
-        if n.get("k") == "MCall" and n["name"] == "starts_with":
-            a = strip(n["args"][0])
-            if a.get("k") == "Lit":
-                dropped.add(a["v"])
         if n.get("k") == "MCall" and n["name"] == "strip_prefix":
             a = strip(n["args"][0])
             if a.get("k") == "Lit":
                 stripped.add(a["v"])
+    # every other `$..` literal of the function is a prefix it tests for (directly, or through a list of prefixes)
+    for n in walk(f["body"]):
+        if n.get("k") == "Lit" and n.get("lk") == "str" and str(n.get("v", "")).startswith("$") and n["v"] not in stripped:
+            dropped.add(n["v"])
     R.table("tableau_dropped_prefixes", sorted(dropped))
-    R.ob("S-SPLIT", "reader:dropped-prefixes", dropped == {"$su_", "$sl_", "$a_"}, F.loc(f), "prefixes dropped from the solution %s, expected exactly the slack/surplus/artificial prefixes" % sorted(dropped))
-    R.ob("S-SPLIT", "reader:split-prefixes", stripped == {"$p", "$m"}, F.loc(f), "split prefixes %s" % sorted(stripped))
+    # the prefixes are read off `name.starts_with("..")` tests; written another way (a table of prefixes, a helper) they
+    # are not seen: undecided.  A recognised but different set is evidence.
+    R.ob("S-SPLIT", "reader:dropped-prefixes", dropped == {"$su_", "$sl_", "$a_"}, F.loc(f), "prefixes dropped from the solution %s, expected exactly the slack/surplus/artificial prefixes" % sorted(dropped), undecided=not dropped)
+    R.ob("S-SPLIT", "reader:split-prefixes", stripped == {"$p", "$m"}, F.loc(f), "split prefixes %s" % sorted(stripped), undecided=not stripped)
     # reconstruction is `positive - negative`
     ok = False
     detail = "no reconstruction `*val - *minus` found"
@@ -377,4 +387,4 @@ def h_positional(F, R):
             joined = " <- ".join(texts)
             ok = re.search(r"\bvariables\(\)|\bvariables\b", joined) is not None
             R.ob("H-POSITIONAL", "%s:%s" % (f["path"], cal.rsplit("::", 1)[-1]), ok, F.loc(f, c), "the value vector `%s` must be built in the model's variable order; its definition chain is: %s" % (sexp(arg)[:60], joined[:300]))
-    R.ob("H-POSITIONAL", "sites", n >= 4, "", "expected at least 4 positional evaluation sites, found %d" % n)
+    R.ob("H-POSITIONAL", "sites", n >= 4, "", "expected at least 4 positional evaluation sites, found %d" % n, undecided=True)
